@@ -962,6 +962,24 @@ class C16(Prop):
                     ops.append("ROUNDTRIP VMsg1230(T{i5,i1,L[%s]})" % ents)
             for _ in range(n // 3):
                 ops.append("ROUNDTRIP " + g.gen_msg(1230, rng.choice(["valid", "hostile"])))
+        # one satellite with far more entries than its 5-bit count holds (255, 256, .. wrap an 8-bit counter too), and lists that
+        # fill the container exactly (390 = 13 satellites x 30) or miss it by one
+        for num in (1059, 1065):
+            if num not in g.layouts:
+                continue
+            table = g.ssr[str(num)]
+            hdr = vt.parse_msg(g.gen_msg(num, "valid"))[2][1][:-1]
+            def mk(ents):
+                body = hdr + [("L", [("T", [("i", s), ("G", b, c), ("f", f32_bits(0.01 * (i % 200 - 100)))]) for i, (s, (b, c)) in enumerate(ents)])]
+                return "ROUNDTRIP " + vt.show_msg(("Msg", num, ("T", body)))
+            for k in (32, 33, 63, 64, 65, 255, 256, 257, 260, 287, 288, 300, 390):
+                ops.append(mk([(7, (table[i % len(table)][0], table[i % len(table)][1])) for i in range(k)]) + " #many%d" % k)
+                if k < 390:       # a list of more than 390 entries is not constructible (DataVec capacity)
+                    ops.append(mk([(7, (table[i % len(table)][0], table[i % len(table)][1])) for i in range(k)] + [(9, (table[0][0], table[0][1]))]) + " #many%d+1" % k)
+            for per, nsat in ((30, 13), (31, 12), (26, 15), (13, 30)):
+                for total in (389, 390):
+                    ents = [(s, (table[i % len(table)][0], table[i % len(table)][1])) for s in range(nsat) for i in range(per)][:total]
+                    ops.append(mk(ents) + " #full%d" % total)
         ops += bias_hostile_frames(ctx)
         ops += bias_pattern_ops(ctx, full=False, n_random=200 if ctx.tier == "quick" else 4000)
         return ops
@@ -978,6 +996,17 @@ class C16(Prop):
                 m = vt.parse_msg(res.split(" ")[0])
                 if len(m[2][1][-1][1]) > 390:
                     return "decoded more entries than the list capacity"
+            if tag.startswith("hostilecap"):
+                # 12 satellites x 31 + k recognised entries, all inside the frame: a list of 372 + k entries when it fits the container
+                total = int(tag[len("hostilecap"):])
+                if total <= 390:
+                    if not res.startswith("VMsg10"):
+                        return "a complete frame with %d entries (capacity 390) decoded to %s" % (total, res[:30])
+                    m = vt.parse_msg(res.split(" ")[0])
+                    if len(m[2][1][-1][1]) != total:
+                        return "a complete frame with %d entries decoded to %d entries" % (total, len(m[2][1][-1][1]))
+                elif not res.startswith("VCorrupt"):
+                    return "a frame with %d entries (capacity 390) decoded to %s" % (total, res[:30])
             return None
         msg = vt.parse_msg(toks[1])
         num = msg[1]
@@ -995,6 +1024,10 @@ class C16(Prop):
         if num in (1059, 1065):
             ents = [(e[1][0][1], (e[1][1][1], e[1][1][2]), e[1][2][1]) for e in lst]
             ok, grouped, max_sat = bias_expect(g, str(num), ents)
+            tbl = {(b, c) for b, c, _ in g.ssr[str(num)]}
+            if all(sg in tbl for _, sg, _ in ents) and len(dl) != len(ents):
+                # even with repeated (satellite, signal) pairs every recognised entry is written once: the counts must agree
+                return "accepted %d recognised entries, the frame decodes to %d: entries lost to a count that wrapped, or dropped" % (len(ents), len(dl))
             if not ok:
                 return None
             got = [(e[1][0][1], (e[1][1][1], e[1][1][2])) for e in dl]
@@ -1338,6 +1371,7 @@ def msm_hostile_frames(ctx):
     for n in g.msm_numbers():
         hb = msm_header_bits(g, n)
         shapes = [(0, 0), (2**64 - 1, 2**32 - 1), (2**64 - 1, 3), (0xFF, 0x1FF), (0x1FF, 0xFF), (1, 0), (0, 1), (0xFFFF, 0xF), (0x1FFFF, 0xF), ((1 << 33) - 1, 3),
+                  (1, 2**32 - 1), (3, 2**32 - 1), (1 << 63, (1 << 17) - 1), (7 << 40, (1 << 21) - 1), (1 << 20, 0xFFFF8000), (5, 0x0007FFFF),
                   (rng.getrandbits(64), rng.getrandbits(32))]
         for sm, gm in shapes:
             for L in (rng.choice([22, 23, 30]), 200, 1023):
